@@ -221,7 +221,7 @@ def check_C01(tier, rng, rep):
     else:
         jobs += pair_jobs(U2, POLY + CURVED[:2], rng, opts=o)
         jobs += pair_jobs(U2, ["cubic-float", "poly-mixed", "poly-frac-rot", "sim-mmu-float"], rng, per_universe=150, classes=("T",), opts=o)
-        jobs += pair_jobs(U3, lambda k: [(POLY + CURVED + EXTRA[:2])[k % 8]], rng, per_universe=2500, classes=("T",), opts=o)
+        jobs += pair_jobs(U3, lambda k: [(POLY + CURVED + EXTRA[:2])[k % 8]], rng, per_universe=1200, classes=("T",), opts=o)
     jobs += repr_jobs(["poly-frac", "poly-float"], o)
     res = runner.pool_map(replay.run_case, jobs)
     rep.add_results("pairs", res, nontrivial=nontrivial_pair)
@@ -319,7 +319,7 @@ def check_C03(tier, rng, rep):
         jobs += query_rows(U3, lambda k: [(POLY + CURVED[:2])[k % 5]], rng, per_universe=60, classes=("T",))
     else:
         jobs = query_rows(U2, POLY + CURVED + EXTRA[:2], rng)
-        jobs += query_rows(U3, lambda k: [(POLY + CURVED + EXTRA[:2])[k % 8]], rng, per_universe=3000, classes=("T", "P"))
+        jobs += query_rows(U3, lambda k: [(POLY + CURVED + EXTRA[:2])[k % 8]], rng, per_universe=1500, classes=("T", "P"))
     res = runner.pool_map(queries.pairq_case, jobs)
     rep.add_results("pairq", res, nontrivial=lambda r: r["row"]["a"] != r["row"]["b"] and r["row"]["a"] and r["row"]["b"])
     history_sims(rep, rng, quick, props={"C03"}, num=120)
@@ -337,7 +337,7 @@ def check_C07(tier, rng, rep):
         jobs += query_rows(U3, lambda k: [(POLY + CURVED[:2])[k % 5]], rng, per_universe=50, classes=("T", "I"))
     else:
         jobs = query_rows(U2, POLY + CURVED + EXTRA[:2], rng)
-        jobs += query_rows(U3, lambda k: [(POLY + CURVED + EXTRA[:2])[k % 8]], rng, per_universe=3000)
+        jobs += query_rows(U3, lambda k: [(POLY + CURVED + EXTRA[:2])[k % 8]], rng, per_universe=1500)
     # make sure equal pairs (the interesting direction) are present
     for un in (U2 + U3):
         rows = [r for r in models.pair_rows(un) if r["op"] == "or" and r["a"] == r["b"] and r["a"] not in (0,)]
@@ -382,7 +382,7 @@ def check_C05(tier, rng, rep):
         jobs += query_rows(U3, lambda k: [(POLY + CURVED[:2])[k % 5]], rng, per_universe=40, classes=("T",))
     else:
         jobs = query_rows(U2, POLY + CURVED + EXTRA[:2], rng, classes=("T",))
-        jobs += query_rows(U3, lambda k: [(POLY + CURVED + EXTRA[:2])[k % 8]], rng, per_universe=2500, classes=("T",))
+        jobs += query_rows(U3, lambda k: [(POLY + CURVED + EXTRA[:2])[k % 8]], rng, per_universe=1200, classes=("T",))
     jobs += [(u_, r_, row_, {"via_invert": True}) for (u_, r_, row_, _o) in jobs[::4]]
     res = runner.pool_map(queries.incl_excl_case, jobs)
     rep.add_results("incl", res, nontrivial=nontrivial_pair)
@@ -426,7 +426,7 @@ def check_C06(tier, rng, rep):
     else:
         jobs += pair_jobs(U2, POLY + CURVED[:2] + ["sim-mmu-float", "sim-mmu-frac"], rng, classes=("T",), opts=o)
         jobs += pair_jobs(U2, ["cubic-float", "poly-mixed", "poly-frac-rot"], rng, per_universe=120, classes=("T",), opts=o)
-        jobs += pair_jobs(U3, lambda k: [(POLY + CURVED + EXTRA[:2] + ["sim-mmu-float", "sim-mmu-frac"])[k % 10]], rng, per_universe=2500, classes=("T",), opts=o)
+        jobs += pair_jobs(U3, lambda k: [(POLY + CURVED + EXTRA[:2] + ["sim-mmu-float", "sim-mmu-frac"])[k % 10]], rng, per_universe=1200, classes=("T",), opts=o)
     # singleton laws (identical boundaries): exact arithmetic on every universe; float polygons on
     # the two-atom universes, where every row has been surveyed (the failing ones are the recorded
     # finding F-C06-float-collinear-U2); under float coordinates on larger universes and for curved
@@ -760,7 +760,7 @@ def check_C13(tier, rng, rep):
         jobs += pair_jobs(U2[2:4], ["poly-mixed"], rng, per_universe=20, classes=("T",), opts=o)
     else:
         jobs = pair_jobs(U2, reals, rng, classes=("T",), opts=o)
-        jobs += pair_jobs(U3, lambda k: [exact_reals[k % 6]], rng, per_universe=3000, classes=("T",), opts=o)
+        jobs += pair_jobs(U3, lambda k: [exact_reals[k % 6]], rng, per_universe=1500, classes=("T",), opts=o)
     # recorded finding F-C13-intermediate-cap (fixed row, always run)
     for row in models.pair_rows("U2cross"):
         if (row["op"], row["a"], row["b"]) == ("and", 10, 12):
